@@ -1681,11 +1681,14 @@ def cases(tier):
 
 def run(run):
     from mc.explore import rotate
-    run.rule = ("ten complete products (molecule / aggregate / aggregate+static Redfield "
+    run.rule = ("twelve complete products (molecule / aggregate / aggregate+static Redfield "
                 "tensor / aggregate+time-dependent tensor / from_dynamics route / aggregate with "
                 "user-supplied correlation-function matrix with cross-correlations / aggregate "
                 "whose Hamiltonian carries a split-off remainder coupling / histories of the "
-                "aggregate object / common dipole factor / histories of one calculator object) of "
+                "aggregate object / common dipole factor / histories of one calculator object / "
+                "couplings of the aggregate re-set + rebuild() under one calculator object: ALL "
+                "sequences of coupling patterns up to the depth / dipole-dipole aggregates under "
+                "ALL rotations putting a pair of molecules onto a lattice direction) of "
                 "kind x N x energy set x coupling pattern x dipole geometry "
                 "x bath pattern x time axis [x correlation-matrix pattern] [x cut-off mode x "
                 "value] [x ALL operation sequences up to the depth x calculator created "
@@ -1747,6 +1750,13 @@ def run(run):
         "group spectra and to recognise the known displacement is the calculator's public "
         "attribute rwa at the time of the call, the Fourier reference itself does not use it "
         "(line-shape route)",
+        "recouple section: between two calculate() calls of one calculator every coupling of "
+        "its aggregate is re-set with set_resonance_coupling (also to 0) and Aggregate.rebuild() "
+        "is called; no tensor is supplied (a supplied tensor would belong to the old couplings)",
+        "rotation-pair-aligned section: rotation = shortest turn taking the distance vector of "
+        "the pair onto the lattice direction (edges, face and body diagonals of the cube); the "
+        "un-rotated spectrum is the reference (TOL_R), couplings set by "
+        "set_coupling_by_dipole_dipole",
     ]
     run.bounds = {"N": [1, 2, 3], "time axes [Nt, dt/fs]": AXES[run.tier],
                   "time axes with static tensor": AXES_TENSOR[run.tier],
@@ -1763,6 +1773,11 @@ def run(run):
                               "sequences": len(histories(run.tier)),
                               "calculator": ["before", "after"]},
                   "dipole factors s (dipole-scale section)": DSCALES,
+                  "recouple": {"patterns": RECOUPLE_PATTERNS, "depth": RECOUPLE_DEPTH[run.tier],
+                               "sequences": {str(n_): len(recouple_sequences(n_, run.tier))
+                                             for n_ in (2, 3)}},
+                  "rotation-pair-aligned": {"directions": len(lattice_directions(run.tier)),
+                                            "pairs": "all N(N-1)/2"},
                   "calculator-history": {"alphabets": CALC_ALPHABET,
                                          "depth": CALC_DEPTH[run.tier],
                                          "sequences": {f: len(calc_histories(
